@@ -768,6 +768,214 @@ Proof.
   - intros a rest -> Hq. apply repl_first; [reflexivity|exact Hq].
 Qed.
 
+(* ------------------------------------------ SUBSTITUTE with an instance *)
+Lemma slice_whole {A} (s : list A) : slice_list s (Some 0) None = s.
+Proof. rewrite slice_from by lia. reflexivity. Qed.
+Lemma slice_none0 {A} (s : list A) : slice_list s None (Some 0) = [].
+Proof. rewrite slice_to by lia. reflexivity. Qed.
+
+Lemma substitute_nth_eval t old new i : not_code t -> not_code old -> not_code new -> 1 <= i ->
+  X_substitute [VStr t; VStr old; VStr new; VInt i]
+  = bind (subst_nth t old new i) (fun r => Ok (VStr r)).
+Proof.
+  intros H1 H2 H3 Hi. unfold X_substitute. wrap_run. cbn [substitute_body py_int].
+  replace (i <=? 0) with false by (symmetry; apply Z.leb_gt; lia). reflexivity.
+Qed.
+
+Lemma subst_nth_1 t o old' new :
+  subst_nth t (o :: old') new 1 = Ok (repl (o :: old') new (Some 1%nat) t).
+Proof.
+  unfold subst_nth. cbn [subst_loop]. replace (1 <? 1) with false by reflexivity.
+  cbn [bind]. rewrite slice_none0, slice_whole. reflexivity.
+Qed.
+
+(* SUBSTITUTE(t, old, new, 1): exactly the first occurrence *)
+Lemma substitute_first t o old' new : not_code t -> not_code (o :: old') -> not_code new ->
+  exists r, X_substitute [VStr t; VStr (o :: old'); VStr new; VInt 1] = Ok (VStr r)
+  /\ (no_occurrence (o :: old') t -> r = t)
+  /\ (forall a rest, t = a ++ (o :: old') ++ rest ->
+        (forall q, (q < length a)%nat -> str_prefix (o :: old') (skipn q t) = false) ->
+        r = a ++ new ++ rest).
+Proof.
+  intros H1 H2 H3. eexists. split.
+  - rewrite substitute_nth_eval by (assumption || lia). rewrite subst_nth_1. reflexivity.
+  - split.
+    + apply repl_no_occurrence.
+    + intros a rest -> Hq. rewrite (repl_first _ _ _ _ (Some 0%nat)) by (reflexivity || exact Hq).
+      rewrite repl_stop by reflexivity. reflexivity.
+Qed.
+Lemma skipn_first_occ {A} (a old rest : list A) :
+  skipn (length a) (a ++ old ++ rest) = old ++ rest.
+Proof. rewrite skipn_app, skipn_all, Nat.sub_diag. reflexivity. Qed.
+
+Lemma find0_first o old' a rest :
+  (forall q, (q < length a)%nat ->
+             str_prefix (o :: old') (skipn q (a ++ (o :: old') ++ rest)) = false) ->
+  str_find_idx (a ++ (o :: old') ++ rest) (o :: old') 0 = zlen a.
+Proof.
+  intros Hq. set (t := a ++ (o :: old') ++ rest) in *.
+  assert (Hat : str_prefix (o :: old') (skipn (length a) t) = true).
+  { subst t. rewrite skipn_first_occ. apply prefix_app. }
+  assert (Hlen : zlen a + zlen (o :: old') <= zlen t).
+  { subst t. unfold zlen. rewrite !app_length. lia. }
+  destruct (find_idx_spec t (o :: old') 0) as [(Hr & Hno) | (H1 & H2 & H3 & H4)]; [lia| |].
+  - exfalso. specialize (Hno (zlen a) (zlen_nonneg a) Hlen).
+    unfold zlen in Hno. rewrite Nat2Z.id in Hno. congruence.
+  - set (r := str_find_idx t (o :: old') 0) in *.
+    destruct (Z_lt_le_dec r (zlen a)) as [Hlt|Hge].
+    + exfalso. specialize (Hq (Z.to_nat r)). rewrite Hq in H3; [discriminate|].
+      unfold zlen in Hlt. lia.
+    + destruct (Z.eq_dec r (zlen a)) as [E|Hne]; [exact E|].
+      exfalso. specialize (H4 (zlen a)). unfold zlen in H4 at 3. rewrite Nat2Z.id in H4.
+      rewrite H4 in Hat; [discriminate|]. pose proof (zlen_nonneg a). lia.
+Qed.
+
+Lemma find0_none old s : no_occurrence old s -> str_find_idx s old 0 = -1.
+Proof.
+  intros H. destruct (find_idx_spec s old 0) as [(Hr & _) | (_ & _ & H3 & _)]; [lia|exact Hr|].
+  rewrite H in H3. discriminate.
+Qed.
+
+Definition shift (d : Z) (r : res (option Z)) : res (option Z) :=
+  match r with Ok (Some x) => Ok (Some (d + x)) | other => other end.
+
+Lemma find_idx_nonneg s old : str_find_idx s old 0 <> -1 -> 0 <= str_find_idx s old 0.
+Proof.
+  intros H. destruct (find_idx_spec s old 0) as [(Hr & _) | (H1 & _)]; [lia|contradiction|exact H1].
+Qed.
+Lemma find_idx_bound s old : str_find_idx s old 0 <> -1 ->
+  str_find_idx s old 0 + zlen old <= zlen s.
+Proof.
+  intros H. destruct (find_idx_spec s old 0) as [(Hr & _) | (_ & H2 & _)]; [lia|contradiction|exact H2].
+Qed.
+
+Lemma loop_shift old : forall fuel t inst start, 0 <= start ->
+  subst_loop fuel t old inst start
+  = shift start (subst_loop fuel (skipn (Z.to_nat start) t) old inst 0).
+Proof.
+  induction fuel as [|f IH]; intros t inst start Hs; [reflexivity|].
+  cbn [subst_loop]. destruct (1 <? inst); [|cbn [shift]; f_equal; f_equal; lia].
+  rewrite slice_whole, slice_from by lia.
+  set (u := skipn (Z.to_nat start) t).
+  destruct (str_find_idx u old 0 =? -1) eqn:E; [reflexivity|].
+  apply Z.eqb_neq in E. pose proof (find_idx_nonneg _ _ E) as Hn. pose proof (zlen_nonneg old) as Ho.
+  set (ns := str_find_idx u old 0) in *.
+  rewrite (IH t (inst - 1) (start + ns + zlen old)) by lia.
+  rewrite (IH u (inst - 1) (0 + ns + zlen old)) by lia.
+  subst u. rewrite skipn_skipn'.
+  replace (Z.to_nat (0 + ns + zlen old) + Z.to_nat start)%nat
+    with (Z.to_nat (start + ns + zlen old)) by lia.
+  destruct (subst_loop f (skipn (Z.to_nat (start + ns + zlen old)) t) old (inst - 1) 0) as [[x|]|e];
+    cbn [shift]; try reflexivity. f_equal. f_equal. lia.
+Qed.
+
+Lemma loop_fuel o old' : forall f1 f2 u inst,
+  (length u + 2 <= f1)%nat -> (length u + 2 <= f2)%nat ->
+  subst_loop f1 u (o :: old') inst 0 = subst_loop f2 u (o :: old') inst 0.
+Proof.
+  induction f1 as [|f1 IH]; intros f2 u inst H1 H2; [lia|].
+  destruct f2 as [|f2]; [lia|]. cbn [subst_loop].
+  destruct (1 <? inst); [|reflexivity]. rewrite slice_whole.
+  destruct (str_find_idx u (o :: old') 0 =? -1) eqn:E; [reflexivity|].
+  apply Z.eqb_neq in E. pose proof (find_idx_nonneg _ _ E) as Hn.
+  pose proof (find_idx_bound _ _ E) as Hb. unfold zlen in Hb at 2.
+  set (ns := str_find_idx u (o :: old') 0) in *.
+  assert (Ho : 1 <= zlen (o :: old')) by (unfold zlen; cbn [length]; lia).
+  rewrite (loop_shift _ f1), (loop_shift _ f2) by lia. apply (f_equal (shift _)).
+  apply IH; rewrite skipn_length; lia.
+Qed.
+
+Lemma loop_nonneg old : forall fuel u inst st,
+  subst_loop fuel u old inst 0 = Ok (Some st) -> 0 <= st.
+Proof.
+  induction fuel as [|f IH]; intros u inst st; [discriminate|].
+  cbn [subst_loop]. destruct (1 <? inst); [|intros [= <-]; lia].
+  rewrite slice_whole.
+  destruct (str_find_idx u old 0 =? -1) eqn:E; [discriminate|].
+  apply Z.eqb_neq in E. pose proof (find_idx_nonneg _ _ E) as Hn. pose proof (zlen_nonneg old) as Ho.
+  rewrite loop_shift by lia.
+  destruct (subst_loop f _ old (inst - 1) 0) as [[x|]|e] eqn:El; cbn [shift]; try discriminate.
+  intros [= <-]. apply IH in El. lia.
+Qed.
+
+(* SUBSTITUTE(t, old, new, i), i >= 2: the first occurrence is kept and the
+   (i-1)-th occurrence of the rest is replaced *)
+Lemma subst_nth_step o old' new a rest i : 2 <= i ->
+  (forall q, (q < length a)%nat ->
+             str_prefix (o :: old') (skipn q (a ++ (o :: old') ++ rest)) = false) ->
+  subst_nth (a ++ (o :: old') ++ rest) (o :: old') new i
+  = bind (subst_nth rest (o :: old') new (i - 1)) (fun r => Ok (a ++ (o :: old') ++ r)).
+Proof.
+  intros Hi Hq. set (t := a ++ (o :: old') ++ rest). unfold subst_nth.
+  change (subst_loop (S (S (length t))) t (o :: old') i 0)
+    with (if 1 <? i then
+            let ns := str_find_idx (slice_list t (Some 0) None) (o :: old') 0 in
+            if ns =? -1 then Ok None
+            else subst_loop (S (length t)) t (o :: old') (i - 1) (0 + ns + zlen (o :: old'))
+          else Ok (Some 0)).
+  replace (1 <? i) with true by (symmetry; apply Z.ltb_lt; lia).
+  cbv zeta. rewrite slice_whole. subst t. rewrite (find0_first _ _ _ _ Hq).
+  pose proof (zlen_nonneg a) as Ha. pose proof (zlen_nonneg (o :: old')) as Ho.
+  replace (zlen a =? -1) with false by (symmetry; apply Z.eqb_neq; lia).
+  rewrite loop_shift by lia.
+  replace (skipn (Z.to_nat (0 + zlen a + zlen (o :: old'))) (a ++ (o :: old') ++ rest)) with rest.
+  2:{ replace (Z.to_nat (0 + zlen a + zlen (o :: old'))) with (length (o :: old') + length a)%nat
+        by (unfold zlen; lia).
+      rewrite <- skipn_skipn', skipn_first_occ, skipn_app, skipn_all, Nat.sub_diag. reflexivity. }
+  rewrite (loop_fuel o old' _ (S (S (length rest)))) by (rewrite ?app_length; cbn [length]; lia).
+  destruct (subst_loop (S (S (length rest))) rest (o :: old') (i - 1) 0) as [[st|]|e] eqn:El;
+    cbn [shift bind]; try reflexivity.
+  (* the loop on the rest ended at st: the slices of t at the shifted start *)
+  apply loop_nonneg in El.
+  rewrite !slice_to, !slice_from by lia.
+  replace (Z.to_nat (0 + zlen a + zlen (o :: old') + st))
+    with (length a + (length (o :: old') + Z.to_nat st))%nat by (unfold zlen; lia).
+  f_equal.
+  rewrite firstn_app_2. rewrite firstn_app_2.
+  rewrite <- !app_assoc. do 3 f_equal.
+  rewrite Nat.add_comm, <- skipn_skipn', skipn_first_occ.
+  rewrite Nat.add_comm, <- skipn_skipn'. rewrite (skipn_app (length (o :: old'))), skipn_all, Nat.sub_diag. reflexivity.
+Qed.
+
+Lemma subst_nth_none t o old' new i : 2 <= i -> no_occurrence (o :: old') t ->
+  subst_nth t (o :: old') new i = Ok t.
+Proof.
+  intros Hi H. unfold subst_nth.
+  change (subst_loop (S (S (length t))) t (o :: old') i 0)
+    with (if 1 <? i then
+            let ns := str_find_idx (slice_list t (Some 0) None) (o :: old') 0 in
+            if ns =? -1 then Ok None
+            else subst_loop (S (length t)) t (o :: old') (i - 1) (0 + ns + zlen (o :: old'))
+          else Ok (Some 0)).
+  replace (1 <? i) with true by (symmetry; apply Z.ltb_lt; lia).
+  cbv zeta. rewrite slice_whole, (find0_none _ _ H). reflexivity.
+Qed.
+
+(* SUBSTITUTE(t, old, new, i), i >= 1, non-empty old: exactly the i-th
+   occurrence (counted without overlaps, left to right) is replaced *)
+Lemma substitute_nth t o old' new i :
+  not_code t -> not_code (o :: old') -> not_code new -> 1 <= i ->
+  X_substitute [VStr t; VStr (o :: old'); VStr new; VInt i]
+    = bind (subst_nth t (o :: old') new i) (fun r => Ok (VStr r))
+  /\ (no_occurrence (o :: old') t -> subst_nth t (o :: old') new i = Ok t)
+  /\ (forall a rest, t = a ++ (o :: old') ++ rest ->
+        (forall q, (q < length a)%nat -> str_prefix (o :: old') (skipn q t) = false) ->
+        (i = 1 -> subst_nth t (o :: old') new i = Ok (a ++ new ++ rest))
+        /\ (2 <= i -> subst_nth t (o :: old') new i
+                      = bind (subst_nth rest (o :: old') new (i - 1))
+                             (fun r => Ok (a ++ (o :: old') ++ r)))).
+Proof.
+  intros H1 H2 H3 Hi. split; [apply substitute_nth_eval; assumption|]. split.
+  - intros Hno. destruct (Z.eq_dec i 1) as [->|Hne].
+    + rewrite subst_nth_1. f_equal. apply repl_no_occurrence. exact Hno.
+    + apply subst_nth_none; [lia|exact Hno].
+  - intros a rest -> Hq. split.
+    + intros ->. rewrite subst_nth_1. f_equal.
+      rewrite (repl_first _ _ _ _ (Some 0%nat)) by (reflexivity || exact Hq).
+      rewrite repl_stop by reflexivity. reflexivity.
+    + intros Hi2. apply subst_nth_step; assumption.
+Qed.
+
 (* ------------------------------------------------- non-vacuity examples *)
 Example ex_partition : X_left [VStr [97; 233; 128512; 98]; VInt 2] = Ok (VStr [97; 233])
   /\ X_mid [VStr [97; 233; 128512; 98]; VInt 3; VInt 4] = Ok (VStr [128512; 98]).
